@@ -309,6 +309,7 @@ def union_selection(ctx, a, f, rule):
     ctx.check(rule, f"{f.qualname}: no-match sentinel cannot reach write_index", not consts, f.where(widx[0]), f"{f.qualname}: sentinel {ivar} = {[av[1] for av in consts]} reaches write_index", "when no branch matches, the sentinel index can reach the write instead of raising")
     other = [av for av in final if av[0] in ("loop", "last", "other")]
     ctx.check(rule, f"{f.qualname}: the index written is always a selected branch index", not other, f.where(widx[0]), f"{f.qualname}: {ivar} may be {sorted(set(av[0] for av in other))} at write_index", "the index written is not the result of a selection (the last loop value, or a value of unknown origin)")
+    return {"cfg": cfg, "sites": sites, "loops": loops, "loop_of": loop_of, "parents": parents}
 
 
 def _is_validate_call(a, f, e):
